@@ -49,7 +49,7 @@ theorem lookupH_of_mem {id : Bytes} {h : Handler} : ∀ {hs : List (Bytes × Han
 
 /-- the handler map as far as the live connection is concerned -/
 structure MapOK (r : Routing) : Prop where
-  allConn : ∀ kv ∈ r.handlers, kv.2 = Handler.conn
+  allConn : ∀ kv ∈ r.handlers, kv.2 = Handler.conn 0
   nodup : (keysOf r).Nodup
   noTimers : r.timers = []
 
